@@ -35,7 +35,7 @@ def run(ck: vlib.Check):
     n = 400 if ck.tier == "quick" else 12000
     ck.rule = ("well-formed CHKs from a grammar (0..8 chunks; every recognised section at legal sizes with random / "
                "saturated / zero field bytes; STR/STRx with shared, unsorted, interior, dangling offsets; unknown "
-               "names incl. non-UTF-8 and enum names without transcoder; duplicates; empty payloads) + repository "
+               "names incl. non-UTF-8, all-NUL / blank names and enum names without transcoder; duplicates; empty payloads) + repository "
                "fixtures; implementation enc(dec(bs)) vs extracted model vs bs. Distinct = distinct byte strings; "
                "non-trivial = at least one chunk.")
     built, props_ok, drv_ok = common_build(ck, "props/C01.v", ["proofs/C01_proofs.vo"])
@@ -48,6 +48,16 @@ def run(ck: vlib.Check):
             b = S.frame(b"PAD0", bytes((7 * i + k) % 251 for i in range(pad))) + S.frame(b"VER ", b"\xcd\x00") + \
                 S.frame(b"SWNM", bytes(1024)) + S.frame(b"TAIL", b"end")
             cases.append((f"boundary:{B}-{k}", b, ["buffer-boundary"]))
+    # degenerate headers: a name of four equal bytes (NUL, blank, 0xFF) with an empty / one-byte / all-zero payload, in front of,
+    # between and behind ordinary chunks (8 zero bytes are a legal chunk, not "padding")
+    for nm in (b"\0\0\0\0", b"    ", b"\xff\xff\xff\xff", b"\0\0\0A"):
+        for body in (b"", b"\0", bytes(8), b"x"):
+            odd = S.frame(nm, body)
+            plain = [S.frame(b"VER ", b"\xcd\x00"), S.frame(b"UPUS", bytes(range(64))), S.frame(b"TAIL", b"end")]
+            for pos in range(4):
+                cases.append((f"degenerate-header:{nm.hex()}:{len(body)}:{pos}", b"".join(plain[:pos] + [odd] + plain[pos:]),
+                              ["degenerate-header"]))
+            cases.append((f"degenerate-header:{nm.hex()}:{len(body)}:twice", odd + odd + plain[0] + odd, ["degenerate-header"]))
     for i in range(n):
         b, kinds = S.gen_wellformed_chk(rng)
         cases.append((f"gen:{i}", b, kinds))
